@@ -7,7 +7,9 @@
    value (Full j); a file left by an interrupted write is a strict byte prefix of
    a JSON array document, which json.load rejects (Broken) -- that a strict prefix
    never decodes is the one fact about the json module the model takes from the
-   runtime; the harness checks it on every byte prefix of real files.
+   runtime; the harness checks it on every byte prefix of real files.  Since the
+   repair of KF-C12-partial-file-not-rejected, create_load_table treats a file that
+   cannot be loaded as absent.
 
    Everything the machine does not decide itself is a parameter: how file
    contents become a Grammar object, which files that grammar reports in
@@ -99,21 +101,40 @@ Section Machine.
   Definition fresh (lr : bool) (g : G) (fp : FP) : pres ptable :=
     pbind (create_table g fp) (check_parser lr g).
 
-  (* create_load_table followed by _check_parser, at time [now] *)
+  (* create_table + save_table, then _check_parser *)
+  Definition create_and_save (fs : fsys) (now : N) (lr : bool) (fp : FP) (g : G)
+    : fsys * (branch * pres ptable) :=
+    match create_table g fp with
+    | Ok t => (mkFS (fs_files fs) (Some (now, Full (to_ser t))),
+               (BCreated, check_parser lr g t))
+    | Raise e => (fs, (BCreateFailed, Raise e))
+    end.
+
+  (* create_load_table followed by _check_parser, at time [now].  A cache file that
+     load_table cannot turn into a table (ValueError incl. JSONDecodeError, KeyError,
+     IndexError, AttributeError, TypeError -- every exception load_cache can raise) is
+     treated as absent: the table is created and the file rewritten. *)
   Definition construct (fs : fsys) (now : N) (lr : bool) (fp : FP)
     : fsys * (branch * pres ptable) :=
     let g := current fs in
-    if must_create fs g then
-      match create_table g fp with
-      | Ok t => (mkFS (fs_files fs) (Some (now, Full (to_ser t))),
-                 (BCreated, check_parser lr g t))
-      | Raise e => (fs, (BCreateFailed, Raise e))
-      end
+    if must_create fs g then create_and_save fs now lr fp g
     else
       match fs_cache fs with
-      | Some (_, c) => (fs, (BLoaded, pbind (load_cache g c) (check_parser lr g)))
-      | None => (fs, (BLoaded, Raise (EOther 0)))      (* unreachable *)
+      | Some (_, c) =>
+          match load_cache g c with
+          | Ok t => (fs, (BLoaded, check_parser lr g t))
+          | Raise _ => create_and_save fs now lr fp g
+          end
+      | None => create_and_save fs now lr fp g      (* unreachable *)
       end.
+
+  (* does a construction in this state reach save_table (if create_table succeeds)? *)
+  Definition will_write (fs : fsys) (g : G) : bool :=
+    if must_create fs g then true
+    else match fs_cache fs with
+         | Some (_, c) => match load_cache g c with Ok _ => false | Raise _ => true end
+         | None => true
+         end.
 
   Definition set_file (fs : fsys) (f : path) (mv : N * N) : fsys :=
     mkFS (dict_set f mv (fs_files fs)) (fs_cache fs).
@@ -128,7 +149,7 @@ Section Machine.
         end
     | Crash fp =>
         let g := current fs in
-        if must_create fs g then
+        if will_write fs g then
           match create_table g fp with
           | Ok _ => (mkFS (fs_files fs) (Some (now, Broken)), None)
           | Raise _ => (fs, None)
@@ -197,12 +218,13 @@ Section Machine.
     end.
 
   (* ---- the class of histories on which the cache is transparent ----------- *)
-  (* one option fingerprint, no interrupted write, nobody touches the .pgc *)
+  (* one option fingerprint for every completed construction, nobody touches the .pgc
+     (interrupted writes are allowed, whatever options the killed process had) *)
   Definition op_ok (fp : FP) (o : op) : Prop :=
     match o with
     | Construct _ fp' => fp' = fp
     | Compile fp' => fp' = fp
-    | Crash _ => False
+    | Crash _ => True
     | TouchCache => False
     | Edit _ _ | Touch _ | RemoveCache => True
     end.
